@@ -43,6 +43,63 @@ def purity_replay(pid, path, v):
         print(f"VIOLATION property={pid} replay={path}"); return 1
     print("one artefact per API over 8 processes"); return 0
 
+def _verdict(pid, path, out, info):
+    tr = tuples(out, "TRACE")
+    if not info["no_error"] or not tr or tr[0][1] != tr[0][2]:
+        print("the trace validator did not consume the trace:", info.get("error_text", "")[:500]); return 2
+    rj = tuples(out, "REJECT")
+    for r in rj:
+        print("rejected:", r[1:6])
+    if rj:
+        print(f"VIOLATION property={pid} replay={path}"); return 1
+    print("accepted"); return 0
+
+def source_replay(pid, path, v):
+    """the failing input of a source-based check once more through the same recorder and the same trace specification"""
+    import subprocess
+    d = workdir("replay-" + pid)
+    if pid == "C14":
+        sp = os.path.join(d, "src.ndjson"); write_ndjson(sp, [{"id": "replay", "src": v["prql"]}])
+        ev = os.path.join(d, "ev.ndjson"); pv(["fmtrun", sp, ev])
+        return _verdict(pid, path, *tlc("FmtTrace", "FmtTrace.cfg", env={"TRACE": ev}, workers=1, deque=True))
+    if pid == "C16":
+        import rqwalk
+        sp = os.path.join(d, "src.ndjson"); write_ndjson(sp, [{"id": "replay", "src": v["prql"]}])
+        rp = os.path.join(d, "rq.ndjson"); pv(["rqjson", sp, rp])
+        r = read_ndjson(rp)[0]
+        if r["rq"] is None:
+            print("the resolver rejects the program: nothing to judge"); return 0
+        blank = {"ev": "", "id": "", "tid": -1, "kind": "", "ncols": 0, "defs": [], "uses": [], "compute": [], "agg": False}
+        evs = [dict(blank, ev="Reset", id="replay")] + [dict(blank, **e) for e in rqwalk.walk(r["rq"])] + [dict(blank, ev="End")]
+        tp = os.path.join(d, "walk.ndjson"); write_ndjson(tp, evs)
+        return _verdict(pid, path, *tlc("RqTrace", "RqTrace.cfg", env={"TRACE": tp}, workers=1, deque=True))
+    if pid == "C17":
+        sp = os.path.join(d, "strs.json"); json.dump([v["source"]], open(sp, "w"))
+        out = os.path.join(d, "list.ndjson")
+        r = subprocess.run([build_harness(), "lexlist", sp, out], stdout=subprocess.PIPE, stderr=subprocess.PIPE, text=True)
+        if r.returncode != 0:
+            print(r.stderr[-500:]); return 2
+        return _verdict(pid, path, *tlc("LexerTrace", "LexerTrace.cfg", env={"TRACE": out}, workers=1, deque=True))
+    if pid == "C18":
+        write_ndjson(os.path.join(d, "cells.ndjson"), [{"opt": v["option"], "hdr": v["header"]}])
+        json.dump([v["program"]], open(os.path.join(d, "progs.json"), "w"))
+        ev = os.path.join(d, "ev.ndjson"); pv(["target", os.path.join(d, "cells.ndjson"), os.path.join(d, "progs.json"), ev])
+        return _verdict(pid, path, *tlc("TargetTrace", "TargetTrace.cfg", env={"TRACE": ev}, workers=1, deque=True))
+    if pid == "C12":
+        import c12
+        x = {"id": "replay", "family": v.get("family", "replay").split(":")[0], "n": 0, "kind": v.get("input_kind") or "src", "text": v["input"]}
+        evs = c12.run_shard(d, "replay", [x], "generic,sqlite,postgres,mssql", timeout=120)
+        norm = []
+        for e in evs:
+            if e["event"] == "Input":
+                norm.append({"event": "Input", "id": e["id"], "family": e.get("family") or "", "results": e["results"], "us": e["us"], "how": "", "n": 0})
+            elif e["event"] == "Died":
+                norm.append({"event": "Died", "id": e["id"], "family": e.get("family") or "", "results": [], "us": 0, "how": e["how"], "n": 0})
+        norm.append({"event": "End", "id": "", "family": "", "results": [], "us": 0, "how": "", "n": 0})
+        tp = os.path.join(d, "tot.ndjson"); write_ndjson(tp, norm)
+        return _verdict(pid, path, *tlc("TotalityTrace", "TotalityTrace.cfg", env={"TRACE": tp}, workers=1, deque=True))
+    return None
+
 def main(pid, path):
     import re as _re
     globals()["re"] = _re
@@ -51,7 +108,14 @@ def main(pid, path):
         return scope_replay(pid, path, v)
     if pid == "C11" and v.get("prql") and not v["prql"].startswith("[["):
         return purity_replay(pid, path, v)
-    if "program" not in v:
+    if "program" not in v or pid == "C18":
+        sys.path.insert(0, os.path.join(ROOT, "checks"))
+        try:
+            rc = source_replay(pid, path, v) if pid in ("C12", "C14", "C16", "C17", "C18") and (v.get("prql") or v.get("source") or v.get("input") or pid == "C18") else None
+        except ToolError as e:
+            print("tool error:", e); return 2
+        if rc is not None:
+            return rc
         print(json.dumps(v, indent=1)[:3000])
         print("this replay file names the failing input (fields above); re-run `bin/check %s quick` to have it judged again in context" % pid); return 2
     dbset = os.path.join(ROOT, v.get("dbset", "corpus/dbs_quick.json"))
